@@ -255,7 +255,7 @@ pub struct Pool {
 
 impl Pool {
     pub fn new(profile: &str, workers: usize, timeout_s: f64) -> Pool {
-        let bin = format!("{}/target/{}/mc", crate::root().display(), profile);
+        let bin = format!("{}/target/{}/mcw", crate::root().display(), profile);
         if !std::path::Path::new(&bin).is_file() {
             eprintln!("machinery error: worker binary {} not built", bin);
             std::process::exit(2);
